@@ -1475,6 +1475,13 @@ def work(task):
     except common.Hang as e:
         steps, out = 0, [("%s/scale:hang" % prop, "%s n=%d: %s"
                           % (name, n, e))]
+    except Exception as e:  # noqa  (a legal call raised inside a script)
+        import traceback
+
+        steps, out = 0, [("%s/scale:script-raises:%s"
+                          % (prop, type(e).__name__),
+                          "%s n=%d: %s" % (name, n,
+                                           traceback.format_exc()[-500:]))]
     return name, n, steps, out
 
 
